@@ -14,7 +14,7 @@ ASSUMPTIONS = ['accepted side: unit norm within 1e-12, direction cosine with the
                'the generator behind random_attitudes is an owned seam: np.random.default_rng is replaced by a stub whose uniform() returns every point of {0,1e-12,.25,.5,.75,1-1e-12}^3',
                'rotate_by(order="S") is only required to return unit rows (its intended ordering semantics are ambiguous in the documentation)',
                'infinite components are not judged (the statement speaks of finite vectors and of NaN)']
-REQUIRED_CLASSES = ['reject:object-unchanged', 'near-unit', 'vec3', 'vec4', 'array', 'dcm-route', 'addsub', 'addsub:near-cancelling', 'rotate_by', 'average', 'random', 'reject:vector', 'reject:matrix', 'reject:matrix-history', 'accept:matrix', 'layout']
+REQUIRED_CLASSES = ['reject:object-unchanged', 'near-unit', 'vec3', 'vec4', 'array', 'dcm-route', 'addsub', 'addsub:near-cancelling', 'rotate_by', 'average', 'random', 'reject:vector', 'reject:matrix', 'reject:matrix-history', 'reject:matrix:reduced-precision', 'accept:matrix', 'layout']
 DECADES = [10.0 ** k for k in range(-100, 101, 10)]
 
 
@@ -507,11 +507,15 @@ def job_reject(ctx, k):
     bad_vecs.append(('allnan', [nan] * 4))
     for name, v in bad_vecs:
         must_reject(lambda: Quaternion(np.array(v) if not isinstance(v, str) and name not in ('scalar',) else v), 'Quaternion(invalid)', f'input={name}')
+        # the option versor=False keeps the norm of a VALID vector; it does not make zero vectors, NaNs or wrong shapes acceptable
+        must_reject(lambda: Quaternion(np.array(v) if not isinstance(v, str) and name not in ('scalar',) else v, versor=False), 'Quaternion(invalid, versor=False)', f'input={name}')
+        must_reject(lambda: Quaternion(np.array(v) if not isinstance(v, str) and name not in ('scalar',) else v, versor=False, order='S'), "Quaternion(invalid, versor=False, order='S')", f'input={name}')
         ctx.cls('reject:vector'); ctx.seen(('rejq', name))
     bad_arrs = [('zero-row', [[1.0, 0, 0, 0], [0.0, 0, 0, 0]]), ('1d', [1.0, 0, 0, 0]), ('Nx5', [[1.0, 0, 0, 0, 0]]), ('Nx2', [[1.0, 0]]), ('3d', [[[1.0, 0, 0, 0]]]),
                 ('str', 'abc'), ('nan-row', [[1.0, 0, 0, 0], [nan, 0, 0, 1.0]]), ('nan-row3', [[1.0, 0, 0], [0, nan, 1.0]]), ('zero-row3', [[0.0, 0, 0]])]
     for name, v in bad_arrs:
         must_reject(lambda: QuaternionArray(np.array(v) if not isinstance(v, str) else v), 'QuaternionArray(invalid)', f'input={name}')
+        must_reject(lambda: QuaternionArray(np.array(v) if not isinstance(v, str) else v, versors=False), 'QuaternionArray(invalid, versors=False)', f'input={name}')
         ctx.cls('reject:vector'); ctx.seen(('rejqa', name))
 
     # complex-valued data (non-zero imaginary parts) are not real vectors / rotations: refused, never silently reduced to their real part
@@ -574,6 +578,15 @@ def job_reject(ctx, k):
                     must_reject(lambda: fn(R @ P), f'{rn}: matrix farther than 1e-4 from SO(3)', f'R#{ir} P={pn} eps={eps:g} k{k}')
                     ctx.cls('reject:matrix')
                 ctx.seen(('rej', ir, rn, eps))
+            # the rejection band does not depend on the numeric type that carries the matrix (single / half precision arrays of the same numbers)
+            if rn in ('DCM(R)', 'Quaternion(dcm=)', 'DCM(stack [M])', 'QuaternionArray(DCM=)'):
+                for eps in (2e-4, 5e-4, 3e-3, 1e-1):
+                    for pn, P in perturbs(eps)[:5]:
+                        for dt_ in (np.float32, np.float16):
+                            if dt_ is np.float16 and eps < 1e-1:
+                                continue            # (half precision cannot carry a 5e-4 defect: the cast would round it away)
+                            must_reject(lambda: fn((R @ P).astype(dt_)), f'{rn}: matrix farther than 1e-4 from SO(3), carried by a reduced-precision array', f'R#{ir} P={pn} eps={eps:g} dtype={np.dtype(dt_).name} k{k}')
+                ctx.cls('reject:matrix:reduced-precision')
             for pn, P in (('reflect-x', np.diag([-1.0, 1, 1])), ('reflect-all', -np.eye(3)), ('swap-xy', np.array([[0.0, 1, 0], [1, 0, 0], [0, 0, 1]])),
                           ('rank2', np.diag([1.0, 1, 0]))):
                 must_reject(lambda: fn(R @ P), f'{rn}: improper / singular matrix', f'R#{ir} P={pn} k{k}')
